@@ -22,7 +22,7 @@ ID = "C01"
 LEVEL = "proof"
 MODULES = ["SqlframeModel.Codec.C01", "SqlframeModel.Props.C01"]
 GEN = ["Operations", "Methods", "Clauses"]
-SOURCES = ["SqlframeModel/Props/C01.lean", "SqlframeModel/Lemmas/C01.lean", "SqlframeModel/Lemmas/C01Wrap.lean", "SqlframeModel/Lemmas/C01Steps.lean", "SqlframeModel/Lemmas/C01Dropna.lean", "SqlframeModel/Lemmas/Sorted.lean", "SqlframeModel/Impl/DataFrame.lean", "SqlframeModel/Impl/C01Scope.lean"]
+SOURCES = ["SqlframeModel/Props/C01.lean", "SqlframeModel/Lemmas/C01.lean", "SqlframeModel/Lemmas/C01Wrap.lean", "SqlframeModel/Lemmas/C01Steps.lean", "SqlframeModel/Lemmas/C01Dropna.lean", "SqlframeModel/Lemmas/Sorted.lean", "SqlframeModel/Lemmas/C01ExprKey.lean", "SqlframeModel/Impl/C01ExprKey.lean", "SqlframeModel/Impl/DataFrame.lean", "SqlframeModel/Impl/C01Scope.lean"]
 
 KINDS = ["where", "select", "withColumn", "withColumnRenamed", "drop", "distinct", "orderBy", "limit", "fillna", "replace", "toDF", "dropna", "unpivot"]
 NEW_NAMES = ["u", "v", "w", "p", "q"]
@@ -820,6 +820,38 @@ def exprsort_case(rng: random.Random, kinds: t.Sequence[str]) -> t.Optional[dict
     return c
 
 
+def exprsort_moved_cases(rng: random.Random) -> t.List[dict]:
+    """sort expressions over a name that the open block *moved* to another input column (swap by select / toDF / a pair
+    of renames), overwrote, or left alone: the engine would read the input column of that name"""
+    out = []
+    schema = {"x": "int", "y": "int"}
+    swaps = {
+        "select-swap": [{"k": "select", "items": [["x", ["col", "y"]], ["y", ["col", "x"]]]}],
+        "toDF-swap": [{"k": "toDF", "names": ["y", "x"]}],
+        "select-move": [{"k": "select", "items": [["y", ["col", "x"]], ["w", ["col", "y"]]]}],
+        "withColumn-copy": [{"k": "withColumn", "n": "x", "e": ["col", "y"]}],
+        "withColumn-neg": [{"k": "withColumn", "n": "y", "e": ["neg", ["col", "y"]]}],
+        "rename-chain": [{"k": "withColumnRenamed", "a": "x", "b": "w"}, {"k": "withColumnRenamed", "a": "y", "b": "x"}],
+        "identity-select": [{"k": "select", "items": [["y", ["col", "y"]], ["x", ["col", "x"]]]}],
+        "where-then-swap": [{"k": "where", "p": ["isNull", ["col", "s0"]]}][:0] + [{"k": "select", "items": [["x", ["col", "y"]], ["y", ["col", "x"]]]}, {"k": "distinct"}][:1],
+    }
+    for name, steps in swaps.items():
+        for _ in range(2):
+            rows = X.gen_table(rng, schema, max_rows=7)
+            c = {"schema": dict(schema), "rows": rows, "steps": json.loads(json.dumps(steps))}
+            if not valid(c):
+                continue
+            types = cols_after(c)
+            ints = [n for n, ty in types.items() if ty == "int"]
+            f = rng.choice(ints)
+            e = rng.choice([("bin", "add", ("col", f), ("lit", 1)), ("neg", ("col", f)), ("bin", "sub", ("col", ints[0]), ("col", ints[-1]))])
+            desc = rng.random() < 0.5
+            c["sortkeys"] = [{"e": e, "desc": desc, "nullsFirst": not desc}]
+            c["origin"] = f"expression-sort-keys:moved:{name}"
+            out.append(c)
+    return out
+
+
 def exprsort_to_lean(i: int, c: dict) -> dict:
     cols = list(cols_after(c))
     extra = [{"k": "withColumn", "n": f"__k{j}", "e": k["e"]} for j, k in enumerate(c["sortkeys"])]
@@ -841,8 +873,21 @@ def run_exprsort(c: dict) -> dict:
             col = X.to_column(tuple_(k["e"]), F)
             d, nf = k["desc"], k["nullsFirst"]
             ks.append(col if (not d and nf and len(ks) % 2 == 0) else (col.asc() if not d and nf else col.asc_nulls_last() if not d else col.desc() if not nf else col.desc_nulls_first()))
-        out = df.orderBy(*ks, *[F.col(n).asc() for n in df.columns])
-        return {"cols": list(out.columns), "rows": [[plain(v) for v in r] for r in out.collect()]}
+        allks = [*ks, *[F.col(n).asc() for n in df.columns]]
+        out = df.orderBy(*allks)
+        res = {"cols": list(out.columns), "rows": [[plain(v) for v in r] for r in out.collect()]}
+        # the guard alone: the undecorated body on the same receiver; did it freeze the block before sorting?
+        try:
+            from sqlglot import exp
+
+            items = [{"isAlias": isinstance(x, exp.Alias), "alias": x.alias, "thisIsCol": isinstance(x.this, exp.Column), "thisName": getattr(x.this, "name", "") or ""}
+                     for x in df.expression.expressions]
+            raw = type(df).orderBy.__wrapped__(df, *allks)
+            res["guard"] = {"items": items, "wrapped": len(raw.expression.ctes) > len(df.expression.ctes),
+                            "keys": [[k["e"][0] == "col", sorted(expr_refs(tuple_(k["e"])))] for k in c["sortkeys"]] + [[True, [n]] for n in df.columns]}
+        except Exception as e:  # noqa
+            res["guard"] = {"err": f"{type(e).__name__}: {str(e)[:200]}"}
+        return res
     except Exception as e:  # noqa
         return {"err": f"{type(e).__name__}: {str(e)[:200]}"}
 
@@ -850,7 +895,11 @@ def run_exprsort(c: dict) -> dict:
 def eval_exprsort(cases: t.List[dict], workers: int = 0) -> t.List[dict]:
     outs = vlib.run_driver("C01", [exprsort_to_lean(i, c) for i, c in enumerate(cases)])
     impls = vlib.parallel_map(run_exprsort, cases, workers)
-    return [{"case": c, "impl": im, "spec": o["spec"], "ok": same(im, o["spec"], True)} for c, o, im in zip(cases, outs, impls)]
+    gq = [(i, im["guard"]) for i, im in enumerate(impls) if isinstance(im.get("guard"), dict) and "err" not in im["guard"]]
+    gout = vlib.run_driver("C01Guard", [{"case": i, "items": g["items"], "keys": g["keys"]} for i, g in gq])
+    gmodel = {o["case"]: o.get("wrap") for o in gout}
+    return [{"case": c, "impl": {k: v for k, v in im.items() if k != "guard"}, "spec": o["spec"], "ok": same(im, o["spec"], True),
+             "guard": im.get("guard"), "guard_model": gmodel.get(i)} for i, (c, o, im) in enumerate(zip(cases, outs, impls))]
 
 
 def dropdup_case(rng: random.Random) -> t.Optional[dict]:
@@ -950,8 +999,19 @@ def run(ctx: Ctx) -> None:
             x = exprsort_case(ctx.rng, kinds)
             if x:
                 es_cases.append(x)
+    es_cases += exprsort_moved_cases(ctx.rng)
     es_res = eval_exprsort(es_cases)
     es_bad = [r for r in es_res if not r["ok"]]
+    # tie of the regenerated guard (Gen.orderRedefined …) to the running orderBy: same decision on the real select list
+    g_seen = [r for r in es_res if r.get("guard_model") is not None]
+    g_bad = [r for r in g_seen if r["guard"]["wrapped"] != r["guard_model"]]
+    g_err = [r for r in es_res if "err" not in r["impl"] and (not isinstance(r.get("guard"), dict) or "err" in r["guard"])]
+    if g_bad:
+        ctx.broken.append(f"orderBy's guard for sort expressions: the regenerated decision (Gen.Clauses) differs from the running code on {len(g_bad)} of {len(g_seen)} select lists, "
+                          f"first: items={json.dumps(g_bad[0]['guard']['items'])} keys={json.dumps(g_bad[0]['guard']['keys'])} real={g_bad[0]['guard']['wrapped']} model={g_bad[0]['guard_model']}")
+    if g_err and len(g_err) == len([r for r in es_res if "err" not in r["impl"]]):
+        ctx.broken.append(f"orderBy's guard for sort expressions could not be observed: {g_err[0].get('guard')}")
+    ctx.cov["orderBy_guard_decisions"] = {"compared": len(g_seen), "froze": sum(1 for r in g_seen if r["guard"]["wrapped"]), "unobservable": len(g_err)}
 
     if model_mismatch:
         ctx.broken.append(f"correspondence stream A (implementation vs Impl/DataFrame.lean): {len(model_mismatch)} of {len(res)} cases differ")
